@@ -424,6 +424,21 @@ pub fn run(sh: &mut Shard) {
         let files2 = vec![files[1].clone(), files[0].clone(), files[2].clone()];
         run_project(sh, &files2, &mut g, 1, "twin");
     }
+    if sh.args.shard == 2 % sh.args.nshards {
+        // a fixed project whose names also occur where no identifier token / field expression stands (round e, reported by a
+        // sub-agent): the prefix of enumeration literals (`E_State#Idle`) and the names in a structure initialiser (`(fa := 3)`)
+        let enum_files = vec![
+            "TYPE E_State : (Idle, Running, Done); END_TYPE\n".to_string(),
+            "PROGRAM Main\nVAR st : E_State; cnt : DINT; END_VAR\nIF st = E_State#Idle THEN\n  st := E_State#Running;\nEND_IF;\ncnt := cnt + DINT#1;\nEND_PROGRAM\n\nCONFIGURATION Conf\nPROGRAM P1 : Main;\nEND_CONFIGURATION\n".to_string(),
+        ];
+        let struct_files = vec![
+            "TYPE Rec : STRUCT fa : DINT; fb : DINT; END_STRUCT END_TYPE\n".to_string(),
+            "PROGRAM Main\nVAR r : Rec := (fa := 3, fb := 4); cnt : DINT; END_VAR\ncnt := cnt + r.fa + r.fb;\nEND_PROGRAM\n\nCONFIGURATION Conf\nPROGRAM P1 : Main;\nEND_CONFIGURATION\n".to_string(),
+        ];
+        let mut g = rng.fork(999_997);
+        run_project(sh, &enum_files, &mut g, 1, "literals");
+        run_project(sh, &struct_files, &mut g, 1, "literals");
+    }
     let mut i = 0u64;
     while sh.time_left() {
         i += 1;
